@@ -1938,6 +1938,11 @@ class Lin:
             return Lin({}, int(x))
         if isinstance(x, int):
             return Lin({}, x)
+        if isinstance(x, float) and x == x and x not in (float("inf"), float("-inf")):
+            from fractions import Fraction
+            return Lin({}, Fraction(str(x)))
+        if type(x).__name__ == "Fraction":
+            return Lin({}, x)
         return None
 
     def is_const(self):
@@ -1958,9 +1963,9 @@ class Lin:
     def __repr__(self):
         parts = []
         for k, v in sorted(self.co.items()):
-            parts.append(("" if v == 1 else "-" if v == -1 else f"{v}*") + k)
+            parts.append(("" if v == 1 else "-" if v == -1 else f"{float(v):g}*" if type(v).__name__ == "Fraction" else f"{v}*") + k)
         if self.c or not parts:
-            parts.append(str(self.c))
+            parts.append(f"{float(self.c):g}" if type(self.c).__name__ == "Fraction" else str(self.c))
         return " + ".join(parts).replace("+ -", "- ")
 
     def __eq__(self, o):
@@ -1994,17 +1999,17 @@ def entails(facts, goal, depth=3):
         if d == 0:
             return False
         syms = res.co
+        from fractions import Fraction
         for i in range(start, len(fl)):
             f = fl[i]
-            useful = False
+            mults = []
             for k, v in f.co.items():
                 rv = syms.get(k)
                 if rv is not None and (rv > 0) == (v > 0):
-                    useful = True
-                    break
-            if not useful:
-                continue
-            for m in (1, 2):
+                    m = Fraction(rv) / Fraction(v)      # cancels symbol k exactly
+                    if m > 0 and m not in mults:
+                        mults.append(m)
+            for m in mults:
                 if rec(res.add(f.scale(m), -1), d - 1, 0):
                     return True
         return False
@@ -2018,10 +2023,11 @@ def entails(facts, goal, depth=3):
 class LinInterp(Interp):
     """Interp extended with Lin values and path facts"""
 
-    def __init__(self, *a, **kw):
+    def __init__(self, *a, real=False, **kw):
         super().__init__(*a, **kw)
         self.facts = []          # Lin >= 0
         self.div_checks = []     # (text, divisor Lin, provably nonzero?)
+        self.real = real         # real-valued quantities: strict branches are recorded as (relaxed) non-strict facts
 
     def assume(self, lin):
         self.facts.append(lin)
@@ -2031,6 +2037,26 @@ class LinInterp(Interp):
         if d.is_const():
             return (d.c > 0) - (d.c < 0)
         opts = []
+        if self.real:
+            pos, neg = d, d.scale(-1)
+            can_pos = not entails(self.facts, d.scale(-1))
+            can_neg = not entails(self.facts, d)
+            can_zero = True
+            if can_pos:
+                opts.append((1, [pos]))
+            opts.append((0, [d, d.scale(-1)]))
+            if can_neg:
+                opts.append((-1, [neg]))
+            if len(opts) == 1:
+                sgn, fs = opts[0]
+            else:
+                i = self.o.choose(len(opts), f"sign({d!r}) at {label}", key=("lin", d.key()))
+                sgn, fs = opts[min(i, len(opts) - 1)]
+                self.decisions.append((label, sgn, repr(d), sgn))
+            for f in fs:
+                if not entails(self.facts, f):
+                    self.facts.append(f)
+            return sgn
         pos = d.add(Lin({}, 1), -1)          # d - 1 >= 0
         neg = d.scale(-1).add(Lin({}, 1), -1)  # -d - 1 >= 0
         can_pos = not entails(self.facts, d.scale(-1))          # not (d <= 0)
@@ -2068,6 +2094,11 @@ class LinInterp(Interp):
                 if lb.is_const():
                     return _lin_norm(la.scale(lb.c))
                 return Unknown(f"({la!r} * {lb!r})")
+            if isinstance(op, ast.Div) and lb.is_const() and lb.c != 0 and self.real:
+                from fractions import Fraction
+                return _lin_norm(la.scale(Fraction(1) / Fraction(lb.c)))
+            if isinstance(op, ast.Div) and la.is_const() and la.c == 0 and self.real:
+                return 0
             if isinstance(op, (ast.Div, ast.FloorDiv, ast.Mod)):
                 sgn_known = entails(self.facts, lb.add(Lin({}, 1), -1)) or entails(self.facts, lb.scale(-1).add(Lin({}, 1), -1)) if not lb.is_const() else lb.c != 0
                 self.div_checks.append((f"{la!r} / {lb!r}", lb, bool(sgn_known)))
@@ -2084,12 +2115,37 @@ class LinInterp(Interp):
             return Unknown(f"({_sym(a) if not isinstance(a, Lin) else repr(a)} {type(op).__name__} {_sym(b) if not isinstance(b, Lin) else repr(b)})")
         return super().binop(op, a, b)
 
+    def _bool_decide(self, d, truth_of_sign, label):
+        """real mode: decide a predicate of sign(d) with one two-way choice at most.
+        truth_of_sign: {1: bool, 0: bool, -1: bool}"""
+        feas = {1: not entails(self.facts, d.scale(-1)), 0: True, -1: not entails(self.facts, d)}
+        if d.is_const():
+            return truth_of_sign[(d.c > 0) - (d.c < 0)]
+        # zero is only feasible together with both relaxed sides; if one side is refuted and the other entailed strictly we still keep it
+        outcomes = {truth_of_sign[sg] for sg in (1, 0, -1) if feas[sg]}
+        if len(outcomes) == 1:
+            return outcomes.pop()
+        i = self.o.choose(2, f"{label}: {d!r}", key=("linb", d.key(), tuple(sorted(truth_of_sign.items()))))
+        val = (i == 0)
+        signs = [sg for sg in (1, 0, -1) if feas[sg] and truth_of_sign[sg] is val]
+        # facts implied by every sign in the chosen group
+        if all(sg >= 0 for sg in signs) and not entails(self.facts, d):
+            self.facts.append(d)
+        if all(sg <= 0 for sg in signs) and not entails(self.facts, d.scale(-1)):
+            self.facts.append(d.scale(-1))
+        self.decisions.append((label, val, repr(d), val))
+        return val
+
     def compare(self, op, a, b, label=""):
         la, lb = Lin.of(a), Lin.of(b)
         if (isinstance(a, Lin) or isinstance(b, Lin)) and la is not None and lb is not None and isinstance(op, (ast.Lt, ast.LtE, ast.Gt, ast.GtE, ast.Eq, ast.NotEq)):
             d = la.add(lb, -1)
+            table = {ast.Lt: {1: False, 0: False, -1: True}, ast.LtE: {1: False, 0: True, -1: True}, ast.Gt: {1: True, 0: False, -1: False},
+                     ast.GtE: {1: True, 0: True, -1: False}, ast.Eq: {1: False, 0: True, -1: False}, ast.NotEq: {1: True, 0: False, -1: True}}[type(op)]
+            if self.real:
+                return self._bool_decide(d, table, label or "compare")
             s = self._decide(d, label or "compare")
-            return {ast.Lt: s < 0, ast.LtE: s <= 0, ast.Gt: s > 0, ast.GtE: s >= 0, ast.Eq: s == 0, ast.NotEq: s != 0}[type(op)]
+            return table[s]
         if isinstance(a, Lin) or isinstance(b, Lin):
             if isinstance(op, (ast.Is, ast.IsNot)):
                 return isinstance(op, ast.IsNot)
@@ -2102,10 +2158,21 @@ class LinInterp(Interp):
         return super().truth(v, label)
 
     def _ext_call(self, name, args, kwargs):
+        if name in ("min", "max") and len(args) == 1 and isinstance(args[0], (list, tuple)) and args[0] and any(isinstance(x, Lin) for x in args[0]) \
+                and all(Lin.of(x) is not None for x in args[0]):
+            args = list(args[0])
+            if len(args) == 1 or all(Lin.of(x) == Lin.of(args[0]) for x in args):
+                return args[0]
         if name in ("min", "max") and len(args) >= 2 and any(isinstance(x, Lin) for x in args) and all(Lin.of(x) is not None for x in args):
             best = Lin.of(args[0])
             for x in args[1:]:
                 lx = Lin.of(x)
+                if self.real:
+                    # ties are irrelevant for min/max: one two-way choice (best >= x ?)
+                    ge = self._bool_decide(best.add(lx, -1), {1: True, 0: True, -1: False}, f"{name}({best!r}, {lx!r})")
+                    if (name == "min" and ge) or (name == "max" and not ge):
+                        best = lx
+                    continue
                 s = self._decide(best.add(lx, -1), f"{name}({best!r}, {lx!r})")
                 if (name == "min" and s > 0) or (name == "max" and s < 0):
                     best = lx
